@@ -561,7 +561,7 @@ def ambient_lifecycle_leg(c, late=False):
     res = None
     for line in p.stdout.decode('utf-8', 'replace').split('\n'):
         if line.startswith('RESULT '):
-            res = json.loads(line[7:])
+            res = json.JSONDecoder().raw_decode(line[7:])[0]
     if res is None:
         raise tlc.MachineryError('ambient life-cycle run produced no result: %s' % p.stderr.decode('utf-8', 'replace')[-500:])
     consts = dict(Facets=set(FACETS), Features={'start', 'hit', 'shutdown'}, MaxSteps=100000, DrawsFromGlobalPRNG=False)
@@ -653,6 +653,76 @@ def recursion_leg(c, wd):
                     signature={'recursion': 'near-limit'})
 
 
+HELD_EXC_HOST = '''
+import traceback
+
+
+def describe(err):
+    depth, tb = 0, err.__traceback__
+    while tb is not None:
+        depth, tb = depth + 1, tb.tb_next
+    return [depth, repr(err.__context__), repr(err.__cause__), len(traceback.format_exception(type(err), err, err.__traceback__)),
+            err.args]
+
+
+class Retry:
+    def __init__(self):
+        self.last_error = None
+
+
+def handled(n):
+    state = Retry()
+    try:
+        raise ValueError('first attempt failed')
+    except ValueError as e:
+        err = e
+        state.last_error = e
+    try:
+        raise KeyError('second attempt failed')
+    except KeyError:
+        n = n + 1  # TP:handled
+    return [n, describe(err), describe(state.last_error)]
+'''
+
+
+def held_exception_leg(c, wd):
+    """The VALUES the program holds are its own: an exception object the application keeps (the error of the last attempt,
+    a local `err`) and that a watch, a log field, a condition or a metric merely looks at is the same object afterwards -
+    its traceback, its context and its cause are what the application left there."""
+    from deepproto.proto.tracepoint.v1.tracepoint_pb2 import Metric, MetricType, LabelExpression
+    mod, path, marks = R.write_host(wd, HELD_EXC_HOST)
+    base = path.rsplit('/', 1)[-1]
+    inf = {'fire_count': '-1', 'fire_period': '0'}
+    want = mod.handled(1)
+    for label, tp in (
+            ('watch', dict(args=dict(inf), watches=['err', 'state.last_error'])),
+            ('log field', dict(args=dict(inf, log_msg='last error {err} / {state.last_error}'))),
+            ('condition', dict(args=dict(inf, condition='err.args and state.last_error is not None'))),
+            ('metric label', dict(args=dict(inf), metrics=[Metric(name='m', type=MetricType.COUNTER, labelExpressions=[
+                LabelExpression(key='k', expression='err')])])),
+            ('capture', dict(args=dict(inf, stage='line_capture'), watches=['err']))):
+        plugin = R.role_plugin('rec', {'log', 'metric'})
+        rg = R.Rig(plugins=[plugin])
+        try:
+            rg.install([dict(tp, id='t-held', path=base, line=marks['handled'])])
+            res = rg.run(mod.handled, 1, only_file=path)
+            bad = None
+            if rg.escaped:
+                bad = 'the handler raised into the host: %r' % (rg.escaped,)
+            elif res != ('ok', want):
+                bad = 'the program returned %r, without the agent %r' % (res, want)
+            elif not rg.snapshots():
+                bad = 'no snapshot (the case was not exercised)'
+        finally:
+            rg.close()
+        c.traces_validated += 1
+        c.note_case(key=('held-exception', label), nontrivial=True)
+        if bad:
+            p_ = c.save_replay({'kind': 'held-exception', 'looked_at_by': label, 'what': bad})
+            c.violation('an exception object the program holds, looked at by a %s: %s' % (label, bad), p_)
+    sys.modules.pop(mod.__name__, None)
+
+
 def run(c):
     quick = c.tier == 'quick'
     rng = random.Random(c.seed)
@@ -677,6 +747,7 @@ def run(c):
     validate(c, traces, meta, 'plugin-callback')
     lock_probe_leg(c, wd)
     recursion_leg(c, wd)
+    held_exception_leg(c, wd)
     # (always: a snapshot taken inside a method that uses zero-argument super() - its frame holds the __class__ cell -
     # and the method called again afterwards)
     cell = [([dict(id=1, kind='line', file='a', line='ktag', span='none'), dict(id=2, kind='line', file='a', line='kf_last', span='none')],
